@@ -282,6 +282,42 @@ func timerKeptAndStopped(arm, stop *ast.FuncDecl) bool {
 	return found
 }
 
+// setpgidUnconditional: inside fn, is every value given to a SysProcAttr's Setpgid the constant `true`, and is it
+// given at least once — i.e. every `…SysProcAttr{…}` literal of fn has the element `Setpgid: true`, and nothing
+// assigns to a `.Setpgid` field afterwards. (The child then leads a process group of its own whatever the command
+// looks like; the termination sites address it by that group.)
+func setpgidUnconditional(fn *ast.FuncDecl) bool {
+	isTrue := func(e ast.Expr) bool { id, ok := e.(*ast.Ident); return ok && id.Name == "true" }
+	lits, good, bad := 0, 0, 0
+	ast.Inspect(fn, func(x ast.Node) bool {
+		switch n := x.(type) {
+		case *ast.CompositeLit:
+			sel, ok := n.Type.(*ast.SelectorExpr)
+			if !ok || sel.Sel.Name != "SysProcAttr" {
+				return true
+			}
+			lits++
+			for _, el := range n.Elts {
+				if kv, ok := el.(*ast.KeyValueExpr); ok {
+					if k, ok := kv.Key.(*ast.Ident); ok && k.Name == "Setpgid" && isTrue(kv.Value) {
+						good++
+					}
+				}
+			}
+		case *ast.AssignStmt:
+			for i, l := range n.Lhs {
+				if sel, ok := l.(*ast.SelectorExpr); ok && sel.Sel.Name == "Setpgid" {
+					if len(n.Lhs) != len(n.Rhs) || !isTrue(n.Rhs[i]) {
+						bad++
+					}
+				}
+			}
+		}
+		return true
+	})
+	return lits > 0 && lits == good && bad == 0
+}
+
 func genExecTask(repo string) (string, error) {
 	ctl, err := parseFile(repo + "/executor/executable/controllabletask.go")
 	if err != nil {
@@ -294,6 +330,14 @@ func genExecTask(repo string) (string, error) {
 	hnd, err := parseFile(repo + "/executor/handlers.go")
 	if err != nil {
 		return "", err
+	}
+	tsk, err := parseFile(repo + "/executor/executable/task.go")
+	if err != nil {
+		return "", err
+	}
+	prep := findFunc(tsk, "", "prepareTaskCmd")
+	if prep == nil {
+		return "", fmt.Errorf("an anchored function of C17 is gone")
 	}
 	kill := findFunc(ctl, "ControllableTask", "Kill")
 	launch := findFunc(ctl, "ControllableTask", "Launch")
@@ -397,6 +441,7 @@ func genExecTask(repo string) (string, error) {
 	fmt.Fprintf(&b, "/-- does ControllableTask.Kill compare t.rpc with nil (go/ast). -/\ndef killChecksRpcNil : Bool := %s\n\n", lb(comparesWithNil(kill, "rpc")))
 	fmt.Fprintf(&b, "/-- does basicTaskBase.Kill signal anything (a call named Kill or Signal) (go/ast). -/\ndef basicKillSignals : Bool := %s\n\n", lb(callsAny(bkill, "Kill", "Signal")))
 	fmt.Fprintf(&b, "/-- does ControllableTask.Launch compare taskCmd.Process with nil before using its Pid (go/ast). -/\ndef launchChecksProcessNil : Bool := %s\n\n", lb(comparesWithNil(launch, "Process")))
+	fmt.Fprintf(&b, "/-- does prepareTaskCmd give every child a process group of its own: every SysProcAttr literal has `Setpgid: true`, the constant, whatever the command's shape (go/ast). -/\ndef setpgidUnconditional : Bool := %s\n\n", lb(setpgidUnconditional(prep)))
 	b.WriteString("end Gen.ExecTask\n")
 	return b.String(), nil
 }
